@@ -161,7 +161,9 @@ def main():
     results, twins = {}, {}
     def _validate():
         # model pack validation (translation validation of the stubs; not a deciding step)
-        return subprocess.run([PY, os.path.join(VERIF, "vlib", "validate_models.py")], capture_output=True, text=True, cwd=VERIF, env=dict(os.environ, XSDATA_SRC=SRC))
+        seam_users = ("C01", "C03", "C08", "C09", "C10", "C11", "C14", "C15")  # the seam corpus is validated only for checks that rely on the seam
+        return subprocess.run([PY, os.path.join(VERIF, "vlib", "validate_models.py")], capture_output=True, text=True, cwd=VERIF,
+                              env=dict(os.environ, XSDATA_SRC=SRC, XSV_SEAM="1" if prop in seam_users else "0"))
 
     with cf.ThreadPoolExecutor(max_workers=args.jobs) as ex:
         futs = {}
